@@ -942,3 +942,144 @@ Example C04_uts46_premises_hold :
   /\ Uts46.to_ascii Idna_Known.toy true [98; 195; 188; 99; 104; 101; 114; 46; 100; 101] Uts46.DENY_EMPTY Uts46.HAllow Uts46.DIgnore
      = U32_c13.Ok (false, [120; 110; 45; 45; 98; 99; 104; 101; 114; 45; 107; 118; 97; 46; 100; 101]).
 Proof. split; [exact Idna_C10_Walk.toy_notrunc | vm_compute; reflexivity]. Qed.
+
+(* ===== uts46 output walks (task idna3) ===== *)
+From RU Require Proofs.Idna_WalkFun Proofs.Idna_WalkInv Proofs.Idna_WalkApi Proofs.Idna_WalkNoPanic Proofs.Idna_WalkEnc Proofs.Idna_WalkDepr.
+
+(* idna/src/uts46.rs:549 / :669 - the from_utf8_unchecked sites behind Passthrough.  C04_utf8_uts46_statement IN FULL:
+   in every mode (fail-fast or mark-errors, every label-display policy, any sinks), for every byte input (invalid
+   UTF-8 included), every deny list / hyphen mode and EVERY adapter (no premise), Passthrough is returned only for
+   an ASCII input; hence the &str handed back is valid UTF-8 (C04_utf8_ascii_valid). *)
+Theorem C04_utf8_uts46 : C04_utf8_uts46_statement.
+Proof. exact Idna_WalkApi.passthrough_ascii_input. Qed.
+Check C04_utf8_uts46 : forall A cfg ff p d deny hy k1 k2 w out1 out2, bytes d ->
+  Uts46.process A cfg ff p d deny hy k1 k2 w = (Uts46.PPassthrough, out1, out2) -> ascii d.
+Print Assumptions C04_utf8_uts46.
+
+(* every string Uts46::to_ascii returns is ASCII - as C04_utf8_uts46_partial2, now for EVERY adapter and every deny
+   list value (the premises NvNoTrunc and valid_deny are gone): from the functional description of the first walk *)
+Theorem C04_utf8_uts46_to_ascii : forall A cfg d deny hy dns b r, bytes d ->
+  Uts46.to_ascii A cfg d deny hy dns = U32_c13.Ok (b, r) -> ascii r /\ (b = true -> r = d).
+Proof.
+  intros A cfg d deny hy dns b r Hb H. split.
+  - exact (Idna_WalkNoPanic.to_ascii_returns_ascii_all A cfg d deny hy dns b r Hb H).
+  - intros ->. exact (Idna_Api.to_ascii_borrow A cfg d deny hy dns r H).
+Qed.
+Check C04_utf8_uts46_to_ascii : forall A cfg d deny hy dns b r, bytes d ->
+  Uts46.to_ascii A cfg d deny hy dns = U32_c13.Ok (b, r) -> ascii r /\ (b = true -> r = d).
+Print Assumptions C04_utf8_uts46_to_ascii.
+
+(* C04_no_panic_uts46_statement with the RIGHT adapter premises.  The statement as first written assumes AdapterOK,
+   which is not enough (next theorem); what is needed is AdapterNP (no normalizer output is U+200F or >= 2^32; sampled
+   by the harness) and AdapterUSV (the normalizers return Unicode scalar values: true by type, they yield `char`s;
+   sampled by the harness as `adapterusv`). *)
+Definition C04_no_panic_uts46_statement2 : Prop :=
+  forall A cfg d deny hy dns p, C04_Uts46_Inner.AdapterNP A -> Idna_WalkEnc.AdapterUSV A -> bytes d ->
+    (forall site, Uts46.to_ascii A cfg d deny hy dns <> U32_c13.Panic site)
+    /\ (Idna_Known.Known_C11 A cfg d deny hy = false ->
+        forall site, Uts46.to_user_interface A cfg d deny hy p <> Uts46.UIPanic site).
+
+(* IN FULL: Uts46::to_ascii never panics (in fail-fast mode Known_C11 is irrelevant), and outside the exact class
+   Known_C11 of finding F-C11-2 to_user_interface / to_unicode never panic - for every byte input, every deny list
+   value, hyphen mode, DNS-length mode and label-display policy, with and without debug assertions.  Covers
+   process_inner (C04_no_panic_uts46_partial2), the debug assertions 782 / 789, every site of the two output walks
+   (805, 810, 813, 830, 844, 852, 885, 899, 928, 933, 949, 992), the unreachable!() behind the Punycode encoder (445:
+   every label that is encoded is at most 1000 scalar values long by the cap of check_label, C13_internal), to_ascii's
+   debug assertion 468 (the checked text is ASCII) and the unreachable SinkError arms 569 / 674. *)
+Theorem C04_no_panic_uts46 : C04_no_panic_uts46_statement2.
+Proof. intros A cfg d deny hy dns p HN HU Hb. exact (Idna_WalkEnc.uts46_no_panic A cfg d deny hy dns p HN HU Hb). Qed.
+Check C04_no_panic_uts46 : forall A cfg d deny hy dns p, C04_Uts46_Inner.AdapterNP A -> Idna_WalkEnc.AdapterUSV A -> bytes d ->
+    (forall site, Uts46.to_ascii A cfg d deny hy dns <> U32_c13.Panic site)
+    /\ (Idna_Known.Known_C11 A cfg d deny hy = false ->
+        forall site, Uts46.to_user_interface A cfg d deny hy p <> Uts46.UIPanic site).
+Print Assumptions C04_no_panic_uts46.
+
+(* the same for Uts46::process itself with infallible sinks (both error modes, with or without ASCII sink): it ends in
+   Passthrough, WroteToSink or ValidityError *)
+Theorem C04_no_panic_uts46_process : forall A cfg ff p d deny hy w,
+  C04_Uts46_Inner.AdapterNP A -> Idna_WalkEnc.AdapterUSV A -> bytes d ->
+  (ff = false -> Idna_Known.Known_C11 A cfg d deny hy = false) ->
+  match fst (fst (Uts46.process A cfg ff p d deny hy None None w)) with
+  | Uts46.PPanic _ | Uts46.PSinkError => False | _ => True end.
+Proof. exact Idna_WalkEnc.uts46_process_no_panic. Qed.
+Check C04_no_panic_uts46_process : forall A cfg ff p d deny hy w,
+  C04_Uts46_Inner.AdapterNP A -> Idna_WalkEnc.AdapterUSV A -> bytes d ->
+  (ff = false -> Idna_Known.Known_C11 A cfg d deny hy = false) ->
+  match fst (fst (Uts46.process A cfg ff p d deny hy None None w)) with
+  | Uts46.PPanic _ | Uts46.PSinkError => False | _ => True end.
+Print Assumptions C04_no_panic_uts46_process.
+
+(* the statement as first written (premise AdapterOK) is FALSE of the model: the adapter that lower-cases ASCII
+   letters and is the identity otherwise meets every field of AdapterOK, and to_ascii("U+200F") fails
+   debug_assert_ne!(c, RLM) in is_bidi (uts46.rs:1650).  Not a defect of the crate: the real idna_adapter maps U+200F
+   to U+FFFD (AdapterNP, sampled). *)
+Theorem C04_no_panic_uts46_statement_refuted : ~ C04_no_panic_uts46_statement.
+Proof.
+  intros H. destruct Idna_WalkEnc.lowid_panics as [Hk Hp].
+  assert (Hb : bytes [226; 128; 143]) by (repeat constructor; unfold is_byte; lia).
+  destruct (H Idna_WalkEnc.lowid true [226; 128; 143] Uts46.DENY_EMPTY Uts46.HAllow Uts46.DIgnore Uts46.never_unicode
+              Idna_WalkEnc.lowid_ok Hb Hk) as [H1 _].
+  exact (H1 1650 Hp).
+Qed.
+Check C04_no_panic_uts46_statement_refuted : ~ C04_no_panic_uts46_statement.
+Print Assumptions C04_no_panic_uts46_statement_refuted.
+
+(* finding F-C04-13, decided: the deprecated Idna::to_ascii(domain, out) (deprecated.rs) panics EXACTLY when debug
+   assertions are on, verify_dns_length is configured, the processing wrote its output (the name is not passed
+   through) and the text already in `out` is not ASCII - for every &str domain, every configuration, every `out`
+   (C04_13_exact without its premise on process; no other panic site of the wrapper or of process is reachable) *)
+Theorem C04_13_panic_iff : forall A cfg c domain out,
+  C04_Uts46_Inner.AdapterNP A -> Idna_WalkEnc.AdapterUSV A -> usv_list domain ->
+  (U32_c13.is_panic (Uts46.idna_to_ascii A cfg c domain out) = true <->
+   cfg = true /\ Uts46.cfg_verify_dns_length c = true /\ Uts46.is_ascii_l out = false /\
+   exists s x, Uts46.process A cfg true Uts46.never_unicode
+                 (utf8_encode (Uts46.map_transitional domain (Uts46.transitional_processing c)))
+                 (Uts46.config_deny_list c) (Uts46.config_hyphens c) None None false = (Uts46.PWroteToSink, s, x)).
+Proof. intros A cfg c domain out HN HU Hd. exact (Idna_WalkDepr.idna_to_ascii_panic_iff A cfg HN HU c domain out Hd). Qed.
+Check C04_13_panic_iff : forall A cfg c domain out,
+  C04_Uts46_Inner.AdapterNP A -> Idna_WalkEnc.AdapterUSV A -> usv_list domain ->
+  (U32_c13.is_panic (Uts46.idna_to_ascii A cfg c domain out) = true <->
+   cfg = true /\ Uts46.cfg_verify_dns_length c = true /\ Uts46.is_ascii_l out = false /\
+   exists s x, Uts46.process A cfg true Uts46.never_unicode
+                 (utf8_encode (Uts46.map_transitional domain (Uts46.transitional_processing c)))
+                 (Uts46.config_deny_list c) (Uts46.config_hyphens c) None None false = (Uts46.PWroteToSink, s, x)).
+Print Assumptions C04_13_panic_iff.
+
+(* the other entry points of the idna crate: deprecated Idna::to_unicode, and the lib.rs wrappers domain_to_ascii,
+   domain_to_ascii_strict, domain_to_unicode - no panic (mark-errors ones: outside Known_C11 of the processed text) *)
+Theorem C04_no_panic_idna_wrappers : forall A cfg, C04_Uts46_Inner.AdapterNP A -> Idna_WalkEnc.AdapterUSV A ->
+  (forall c domain out, usv_list domain ->
+     Idna_Known.Known_C11 A cfg (utf8_encode (Uts46.map_transitional domain (Uts46.transitional_processing c)))
+       (Uts46.config_deny_list c) (Uts46.config_hyphens c) = false ->
+     forall site, Uts46.idna_to_unicode A cfg c domain out <> U32_c13.Panic site)
+  /\ (forall domain, usv_list domain ->
+       (forall site, Uts46.domain_to_ascii A cfg domain <> U32_c13.Panic site) /\
+       (forall site, Uts46.domain_to_ascii_strict A cfg domain <> U32_c13.Panic site) /\
+       (Idna_Known.Known_C11 A cfg (utf8_encode domain) Uts46.DENY_EMPTY Uts46.HAllow = false ->
+        forall site, Uts46.domain_to_unicode A cfg domain <> Uts46.UIPanic site)).
+Proof.
+  intros A cfg HN HU. split.
+  - intros c domain out Hd HK. exact (Idna_WalkDepr.idna_to_unicode_no_panic A cfg HN HU c domain out Hd HK).
+  - intros domain Hd. exact (Idna_WalkDepr.lib_wrappers_no_panic A cfg HN HU domain Hd).
+Qed.
+Check C04_no_panic_idna_wrappers : forall A cfg, C04_Uts46_Inner.AdapterNP A -> Idna_WalkEnc.AdapterUSV A ->
+  (forall c domain out, usv_list domain ->
+     Idna_Known.Known_C11 A cfg (utf8_encode (Uts46.map_transitional domain (Uts46.transitional_processing c)))
+       (Uts46.config_deny_list c) (Uts46.config_hyphens c) = false ->
+     forall site, Uts46.idna_to_unicode A cfg c domain out <> U32_c13.Panic site)
+  /\ (forall domain, usv_list domain ->
+       (forall site, Uts46.domain_to_ascii A cfg domain <> U32_c13.Panic site) /\
+       (forall site, Uts46.domain_to_ascii_strict A cfg domain <> U32_c13.Panic site) /\
+       (Idna_Known.Known_C11 A cfg (utf8_encode domain) Uts46.DENY_EMPTY Uts46.HAllow = false ->
+        forall site, Uts46.domain_to_unicode A cfg domain <> Uts46.UIPanic site)).
+Print Assumptions C04_no_panic_idna_wrappers.
+
+(* C04_no_panic_uts46: a concrete adapter meets AdapterNP and AdapterUSV (the toy adapter with non-scalar values and
+   U+200F replaced by U+FFFD); a mixed name goes through both entry points, one with an over-long label is rejected *)
+Example C04_uts46_walk_premises_hold :
+  C04_Uts46_Inner.AdapterNP Idna_WalkEnc.toy_s /\ Idna_WalkEnc.AdapterUSV Idna_WalkEnc.toy_s
+  /\ Uts46.to_ascii Idna_WalkEnc.toy_s true [98; 195; 188; 99; 104; 101; 114; 46; 68; 69] Uts46.DENY_EMPTY Uts46.HAllow Uts46.DVerify
+     = U32_c13.Ok (false, [120; 110; 45; 45; 98; 99; 104; 101; 114; 45; 107; 118; 97; 46; 100; 101])
+  /\ Uts46.to_unicode Idna_WalkEnc.toy_s true [226; 128; 143; 46; 120; 110; 45; 45; 98; 99; 104; 101; 114; 45; 107; 118; 97] Uts46.DENY_EMPTY Uts46.HAllow
+     = Uts46.UI false [65533; 46; 98; 252; 99; 104; 101; 114] true.
+Proof. split; [exact Idna_WalkEnc.toy_s_np|]. split; [exact Idna_WalkEnc.toy_s_usv|]. vm_compute. split; reflexivity. Qed.
